@@ -331,6 +331,20 @@ def rule_aggregation(ctx):
     # of the in-service elements at that bus, with the sign table of the aggregation (shared with C10)
     from rules import C10
     C10.rule_xward(ctx)
+    RG = "RESULT-WRITTEN"
+    ctx.rule(RG, "_get_gen_results calls _get_pp_gen_results whenever net.gen has rows: the test does not depend on how many generators are in "
+                 "service (with all generators switched off the rows must be rewritten with zeros, otherwise a run that keeps the result "
+                 "tables - init='results', rundcpp - reports the generation of the previous run)")
+    from ppsa.astutil import inline_locals
+    fg = ctx.repo.func("pandapower.results_gen:_get_gen_results")
+    gd = next((n for n in ast.walk(fg.node) if isinstance(n, ast.If) and any(isinstance(c, ast.Call) and norm(c.func, 40) == "_get_pp_gen_results" for st in n.body for c in ast.walk(st))), None)
+    if gd is None:
+        ctx.fail("_get_gen_results: call of _get_pp_gen_results not found")
+    t = norm(inline_locals(fg.node, gd.test), 200).replace(" ", "").replace('"', "'")
+    ok = "len(net['gen'])" in t and "net['gen'].in_service" not in t and "net.gen.in_service" not in t
+    ctx.ob(RG, "pandapower.results_gen::_get_gen_results::gen-results-guard", ok,
+           f"generator results written when `{t[:100]}`" if ok else f"generator results written only when `{t[:110]}`: stale rows when every generator is out of service",
+           fg.loc(gd))
     R5 = "IS-FACTOR"
     ctx.rule(R5, "every term that _calc_shunts_and_add_on_ppc adds to the shunt accumulators inside an element block is multiplied by "
                  "that element's in-service mask (the result side writes zero for out-of-service elements)")
@@ -411,6 +425,7 @@ def variants(repo):
         Variant("recycled dc run forgets the compared shift", "pandapower/pf/run_dc_pf.py", replace_once("            ppci['internal']['shift'] = branch[:, SHIFT]\n            ppci['internal']['Pbusinj'] = Pbusinj\n            ppci['internal']['Pfinj'] = Pfinj\n", "            ppci['internal'].update(Pbusinj=Pbusinj, Pfinj=Pfinj)\n"), "DC-CACHE"),
         Variant("twin: cache refreshed through update()", "pandapower/pf/run_dc_pf.py", replace_once("            ppci['internal']['shift'] = branch[:, SHIFT]\n            ppci['internal']['Pbusinj'] = Pbusinj\n            ppci['internal']['Pfinj'] = Pfinj\n", "            ppci['internal'].update(shift=branch[:, SHIFT], Pbusinj=Pbusinj, Pfinj=Pfinj)\n"), None),
         Variant("storage counted as generation in the xward share", rb, replace_once('p_bus -= p_elm.sum() * (-1 if e == "sgen" else 1)', 'p_bus -= p_elm.sum() * (-1 if e in ("sgen", "storage") else 1)'), "SW-XWARD"),
+        Variant("gen results only with in-service gens", "pandapower/results_gen.py", replace_once("gen_end = eg_end + len(net['gen'])", "gen_end = eg_end + sum(net['gen'].in_service)"), "RESULT-WRITTEN"),
         Variant("table shunt without in-service mask", bb, replace_once('q = q + s["q_mvar_table"].fillna(0).to_numpy() * v_ratio * vl', 'q = q + s["q_mvar_table"].fillna(0).to_numpy() * v_ratio'), "IS-FACTOR"),
         Variant("ward admittance without in-service mask", bb, replace_once('p = np.hstack([p, w["pz_mw"].values * base_multiplier * vl])', 'p = np.hstack([p, w["pz_mw"].values * base_multiplier])'), "IS-FACTOR"),
         Variant("ac slack split by all gens at the bus", "pandapower/pypower/pfsoln.py",
